@@ -51,8 +51,9 @@ Section Rules.
   Proof.
     intros HI Hl Hb. unfold pledged. apply sumz_zero. intros j _. unfold bterm.
     destruct (zget (borrows st) j) as [b|] eqn:Ej; [|reflexivity].
+    destruct (b_liq b) eqn:Hq; [rewrite andb_false_r; reflexivity|].
     destruct (Z.eqb_spec (b_lend b) lid) as [E|]; [|reflexivity].
-    exfalso. exact (unref_nobids _ _ _ _ _ _ _ _ HI Hl Hb j b Ej E).
+    exfalso. exact (unref_nobids _ _ _ _ _ _ _ _ HI Hl Hb j b Ej Hq E).
   Qed.
 
   Lemma pledged_same B nb B' nb' n :
